@@ -186,8 +186,26 @@ func (db *RockDB) BitSetV2(ts int64, key []byte, offset int64, on int) (int64, e
 		if v == nil {
 			db.IncrTableKeyCount(table, 1, wb)
 		} else if len(v) >= tsLen {
-			v = v[:len(v)-tsLen]
-			table, rk, _ := extractTableFromRedisKey(key)
+			// the stored value carries the modify time and, under the value header policy, the
+			// header in front of the bitmap bytes: only the bitmap bytes are converted (none if
+			// the old value is expired), and the segments go under the key of the generation
+			// that bitSetToNew below writes to (the versioned key under that policy), otherwise
+			// every old bit is lost by the conversion.
+			oldExpired, err := db.expiration.isExpired(ts, KVType, key, v, false)
+			if err != nil {
+				return 0, err
+			}
+			if v, _, err = db.decodeDBRawValueToRealValue(v); err != nil {
+				return 0, err
+			}
+			if oldExpired {
+				v = nil
+			}
+			newInfo, err := db.prepareCollKeyForWrite(ts, BitmapType, key, nil)
+			if err != nil {
+				return 0, err
+			}
+			table, rk := newInfo.Table, newInfo.VerKey
 			for i := 0; i < len(v); i += bitmapSegBytes {
 				index := int64(i)
 				bmk, err := encodeBitmapKey(table, rk, index)
